@@ -3,5 +3,6 @@ CONSTANTS
   K = 2
   MaxEntries = 1
   DevNoneWhenListsEmpty = FALSE
+  DevEmptyAllowIsAbsent = FALSE
 INVARIANT AsConfigured
 CHECK_DEADLOCK FALSE
